@@ -1,9 +1,13 @@
 (** C01 - integer ring arithmetic is exact for every operand size and sign.
-    ONLY statements pinned here; proofs live in Dashu.Int.Ring*. *)
-From Dashu Require Import Base.Prelude Base.Words Int.RingSpec Int.RingSign.
+    ONLY statements pinned here; proofs live in Dashu.Int.Ring*.
+    [w] is the word size in bits (any w >= 8; 16/32/64 in the builds), B w = 2^w, word lists are
+    little-endian, [value w] is the number a list denotes, [wf w] says every word is in [0, B). *)
+From Dashu Require Import Base.Prelude Base.Words Int.RingSpec Int.RingSign Int.RingAdd Int.RingAddProofs
+  Int.RingMul Int.RingMulProofs Int.RingKaraProofs Int.RingToomProofs Int.RingDispatchProofs.
 From DashuGen Require Import SignTables Params.
 Open Scope Z_scope.
 
+(** ---- IBig sign tables (regenerated from add_ops.rs / mul_ops.rs on every run) *)
 Theorem C01_ibig_add_table : forall s0 m0 s1 m1, ibig_add_gen s0 m0 s1 m1 = signed s0 m0 + signed s1 m1.
 Proof. exact ibig_add_gen_correct. Qed.
 Print Assumptions C01_ibig_add_table.
@@ -15,3 +19,92 @@ Print Assumptions C01_ibig_sub_table.
 Theorem C01_ibig_mul_table : forall s0 m0 s1 m1, ibig_mul_gen s0 m0 s1 m1 = signed s0 m0 * signed s1 m1.
 Proof. exact ibig_mul_gen_correct. Qed.
 Print Assumptions C01_ibig_mul_table.
+
+(** ---- add.rs: carry / borrow kernels, every length *)
+Theorem C01_add_in_place : forall w, 0 < w -> forall lhs rhs, (length rhs <= length lhs)%nat -> wf w lhs -> wf w rhs ->
+  forall r c, add_in_place w lhs rhs = (r, c) ->
+  length r = length lhs /\ wf w r /\ value w r + b2z c * B w ^ len lhs = value w lhs + value w rhs.
+Proof. exact add_in_place_spec. Qed.
+Print Assumptions C01_add_in_place.
+
+Theorem C01_sub_in_place : forall w, 0 < w -> forall lhs rhs, (length rhs <= length lhs)%nat -> wf w lhs -> wf w rhs ->
+  forall r c, sub_in_place w lhs rhs = (r, c) ->
+  length r = length lhs /\ wf w r /\ value w r + - b2z c * B w ^ len lhs = value w lhs + - value w rhs.
+Proof. exact sub_in_place_spec. Qed.
+Print Assumptions C01_sub_in_place.
+
+Theorem C01_sub_in_place_with_sign : forall w, 0 < w -> forall lhs rhs, (length rhs <= length lhs)%nat -> wf w lhs -> wf w rhs ->
+  forall r s, sub_in_place_with_sign w lhs rhs = (r, s) ->
+  length r = length lhs /\ wf w r /\ signed s (value w r) = value w lhs - value w rhs.
+Proof. exact sub_in_place_with_sign_spec. Qed.
+Print Assumptions C01_sub_in_place_with_sign.
+
+(** ---- mul/*.rs: word and double-word multipliers *)
+Theorem C01_mul_word_in_place : forall w, 8 <= w -> forall ws rhs, wf w ws -> 0 < rhs < B w ->
+  forall r c, mul_word_in_place w ws rhs = (r, c) ->
+  length r = length ws /\ wf w r /\ 0 <= c < B w /\ value w r + c * B w ^ len ws = value w ws * rhs.
+Proof. exact mul_word_in_place_spec. Qed.
+Print Assumptions C01_mul_word_in_place.
+
+Theorem C01_mul_dword_in_place : forall w, 8 <= w -> forall ws rhs, wf w ws -> 0 <= rhs < B w * B w ->
+  forall r c, mul_dword_in_place w ws rhs = (r, c) ->
+  length r = length ws /\ wf w r /\ 0 <= c < B w * B w /\ value w r + c * B w ^ len ws = value w ws * rhs.
+Proof. exact mul_dword_in_place_spec. Qed.
+Print Assumptions C01_mul_dword_in_place.
+
+(** ---- each multiplier meets the kernel contract  c' + carry * B^len c = c + sign * a * b
+    (mul_ok), given the recursive multiplier does so on shorter operands (same_ok) *)
+Theorem C01_schoolbook : forall w, 8 <= w -> forall c s a b,
+  wf w c /\ wf w a /\ wf w b /\ length c = (length a + length b)%nat ->
+  exists r carry, simple_chunk_fn w c s a b = Ok (r, carry) /\ length r = length c /\ wf w r /\
+    value w r + carry * B w ^ len c = value w c + sgnz s * (value w a * value w b).
+Proof. exact simple_chunk_ok. Qed.
+Print Assumptions C01_schoolbook.
+
+Theorem C01_karatsuba : forall w, 8 <= w -> forall rec_same c s a b,
+  pre w c a b -> length a = length b -> (2 <= length a)%nat -> same_ok w rec_same (length a) ->
+  exists r carry, karatsuba_same_len w rec_same c s a b = Ok (r, carry) /\ length r = length c /\ wf w r /\
+    value w r + carry * B w ^ len c = value w c + sgnz s * (value w a * value w b).
+Proof. exact karatsuba_ok. Qed.
+Print Assumptions C01_karatsuba.
+
+Theorem C01_toom3_value_level : forall w, 8 <= w -> forall rec_same c s a b,
+  pre w c a b -> length a = length b -> (4 <= length a)%nat -> same_ok w rec_same (length a) ->
+  exists r carry, toom3_same_len w rec_same c s a b = Ok (r, carry) /\ length r = length c /\ wf w r /\
+    value w r + carry * B w ^ len c = value w c + sgnz s * (value w a * value w b).
+Proof. exact toom3_ok. Qed.
+Print Assumptions C01_toom3_value_level.
+
+(** ---- the size dispatch, for EVERY admissible threshold triple and every pair of lengths *)
+Theorem C01_add_signed_mul_any_thresholds : forall w, 8 <= w -> forall T_simple T_kara CHUNK,
+  (1 <= T_simple)%nat -> (3 <= T_kara)%nat -> (1 <= CHUNK)%nat ->
+  forall c s a b, wf w c /\ wf w a /\ wf w b /\ length c = (length a + length b)%nat ->
+  exists r carry, add_signed_mul w T_simple T_kara CHUNK c s a b = Ok (r, carry) /\ length r = length c /\ wf w r /\
+    value w r + carry * B w ^ len c = value w c + sgnz s * (value w a * value w b).
+Proof. exact add_signed_mul_ok. Qed.
+Print Assumptions C01_add_signed_mul_any_thresholds.
+
+Theorem C01_thresholds_admissible :
+  (1 <= Z.to_nat mul_threshold_simple)%nat /\ (3 <= Z.to_nat mul_threshold_karatsuba)%nat /\
+  (1 <= Z.to_nat mul_simple_chunk_len)%nat /\
+  karatsuba_min_len <= mul_threshold_simple + 1 /\ toom3_min_len <= mul_threshold_karatsuba + 1.
+Proof. exact source_thresholds_admissible. Qed.
+Print Assumptions C01_thresholds_admissible.
+
+(** ---- with the thresholds of the source: the kernel with accumulator and sign, and the product *)
+Theorem C01_add_signed_mul : forall w, 8 <= w -> forall c s a b,
+  wf w c /\ wf w a /\ wf w b /\ length c = (length a + length b)%nat ->
+  exists r carry,
+    add_signed_mul w (Z.to_nat mul_threshold_simple) (Z.to_nat mul_threshold_karatsuba) (Z.to_nat mul_simple_chunk_len) c s a b
+      = Ok (r, carry) /\
+    length r = length c /\ wf w r /\ -1 <= carry <= 1 /\
+    value w r + carry * B w ^ len c = value w c + sgnz s * (value w a * value w b).
+Proof. exact add_signed_mul_source_ok. Qed.
+Print Assumptions C01_add_signed_mul.
+
+Theorem C01_multiply : forall w, 8 <= w -> forall a b, wf w a -> wf w b ->
+  exists r,
+    multiply w (Z.to_nat mul_threshold_simple) (Z.to_nat mul_threshold_karatsuba) (Z.to_nat mul_simple_chunk_len) a b = Ok r /\
+    length r = (length a + length b)%nat /\ wf w r /\ value w r = value w a * value w b.
+Proof. exact multiply_source_correct. Qed.
+Print Assumptions C01_multiply.
